@@ -27,4 +27,17 @@ CHECKS = [
        "the reference model are the checker's.",
        "deterministic simulation: seeded baton-passing thread scheduler + linearizability check against ModelLRU",
        "DESIGN.md section 4, C24"),
+    _c("C23",
+       "Seeded search over request histories x task schedules x faults: 1-5 concurrent clients on a virtual-time "
+       "event loop issue sync and async requests (namespace by keyword, render context or include/render tag) "
+       "against the four caching loaders while sources are edited (mtime forward / unchanged / backward), "
+       "deleted and recreated; every returned template is compared, in the loop step in which it returns, with "
+       "what the corresponding non-caching loader returns for the same request over the same store (refinement), "
+       "with an interval-based freshness rule, cache well-formedness after every step, and a separate fault "
+       "configuration (store errors, errno faults, cancellation). A clean batch is evidence, not proof.",
+       "Trusts asyncio's Task/Future semantics and FIFO ready queue; executor jobs are atomic at a seeded virtual "
+       "time; freshness is only demanded where the source supplies an uptodate callable; thread-level concurrency "
+       "on the template cache is not simulated here (the map's own thread safety is C24).",
+       "deterministic simulation: virtual-time asyncio loop + seeded executor/latency/cancellation + simulated storage; refinement against the non-caching loader",
+       "DESIGN.md section 4, C23"),
 ]
